@@ -1,12 +1,698 @@
-//! stub: property C06 has no correspondence harness yet
+//! C06 — HTTP/1 connections are time-bounded (slow head, keep-alive, shutdown, drain).
+//!
+//! A case is a configuration (`T=` client request timeout, `K=` keep-alive, `D=` client
+//! disconnect timeout, all ms; `hc=` allow half-closed; `S=` instant of the graceful-shutdown
+//! signal; `A=` instant the connection is accepted; `sd=p` transport whose `poll_shutdown` pends;
+//! `h=<delay>:<body>,…` handler scripts) followed by timed events `<ms>:<what>`; see
+//! `c06_rt.rs`.  The real `h1::Dispatcher` is polled under a paused tokio clock exactly when a
+//! scripted event is due or its own waker fired.  Output = the observed timeline.
+//!
+//! The oracle below evaluates the four sentences of the property on that timeline using only
+//! the script (what was sent when) and the configuration — no model.
+#[path = "../c06_rt.rs"]
+mod c06_rt;
+
+use c06_rt::{parse_case, run_case, show, Case, Ev, Ka, Rec};
+
 use super::Prop;
-use crate::common::CaseResult;
+use crate::common::{CaseResult, Ctx, Rng};
+
+const RULE: &str = "cases = timer configuration (each of request / keep-alive / disconnect timeout possibly disabled, \
+accept instant 0..999 ms so that the 500 ms cached clock is stale by 0..499 ms) + a timed script of byte arrivals \
+(complete heads, split heads, Connection: close, POST with unread body, garbage), EOF, spurious wake-ups, transport \
+modes (poll_shutdown / poll_flush / poll_write pending, becoming ready at scripted instants), handler delays and body \
+kinds, and the graceful-shutdown instant; arrival / wake / signal instants are placed at -501,-500,-1,0,+1 ms around \
+every deadline of the script (ties included). Five structured families (slow head, keep-alive, shutdown paths, graceful, \
+linger) plus a random mix. A case is non-trivial if a timer fired, the signal fired or a request was served; distinct = \
+distinct (case, observed timeline) hashes";
+
+const SKEW: u64 = 500;
+
+// ---------------------------------------------------------------------------------------------
+// oracle
+
+struct Script {
+    /// (time, token) in arrival order
+    toks: Vec<(u64, char)>,
+    eof: Option<u64>,
+    blocks: bool,
+}
+
+fn script_of(c: &Case) -> Script {
+    let mut s = Script { toks: vec![], eof: None, blocks: false };
+    for (t, e) in &c.events {
+        let t = (*t).max(c.accept);
+        match e {
+            Ev::Bytes(b) => s.toks.extend(b.chars().map(|ch| (t, ch))),
+            Ev::Eof => {
+                if s.eof.is_none() {
+                    s.eof = Some(t)
+                }
+            }
+            Ev::WriteBlock(true) | Ev::FlushBlock(true) => s.blocks = true,
+            _ => {}
+        }
+    }
+    s
+}
+
+pub fn well_formed(toks: &[char]) -> bool {
+    let mut i = 0;
+    while i < toks.len() {
+        match toks[i] {
+            'G' | 'C' => i += 1,
+            'X' => return true,
+            'a' => {
+                if i + 1 == toks.len() {
+                    return true;
+                }
+                if toks[i + 1] != 'b' {
+                    return false;
+                }
+                i += 2;
+            }
+            'P' => {
+                if i + 1 == toks.len() {
+                    return true;
+                }
+                if toks[i + 1] != 'd' {
+                    return false;
+                }
+                i += 2;
+            }
+            _ => return false,
+        }
+    }
+    true
+}
+
+/// instants at which a request head became complete on the wire (time, malformed?)
+fn heads(s: &Script) -> Vec<(u64, bool)> {
+    let mut v = Vec::new();
+    for (t, ch) in &s.toks {
+        match ch {
+            'G' | 'C' | 'b' | 'P' => v.push((*t, false)),
+            'X' => {
+                v.push((*t, true));
+                break;
+            }
+            _ => {}
+        }
+    }
+    v
+}
+
+fn oracle(c: &Case, recs: &[Rec]) -> (Option<(String, String)>, Vec<String>, bool) {
+    let mut tags: Vec<String> = Vec::new();
+    let mut fail: Option<(String, String)> = None;
+    let mut set = |sig: &str, d: String| {
+        if fail.is_none() {
+            fail = Some((sig.to_owned(), d));
+        }
+    };
+    let s = script_of(c);
+    let hs = heads(&s);
+    let done = recs.iter().find_map(|r| if let Rec::Done(t, k) = r { Some((*t, k.clone())) } else { None });
+    let hang = recs.iter().any(|r| matches!(r, Rec::Hang));
+    let first_shut = recs.iter().find_map(|r| if let Rec::Shut(t, _) = r { Some(*t) } else { None });
+    let closing_at = |t: u64| -> bool {
+        // is there evidence that the connection was being closed at instant t?
+        recs.iter().any(|r| match r {
+            Rec::Shut(x, _) | Rec::Done(x, _) => *x == t,
+            _ => false,
+        })
+    };
+    let first_close = recs.iter().find_map(|r| match r {
+        Rec::Shut(t, _) | Rec::Done(t, _) => Some(*t),
+        _ => None,
+    });
+    let t408: Vec<u64> = recs.iter().filter_map(|r| if let Rec::Head(t, 408, _) = r { Some(*t) } else { None }).collect();
+    if recs.iter().any(|r| matches!(r, Rec::Livelock(_))) {
+        set("livelock", "connection task woke itself more than 64 times at one instant".into());
+    }
+    if !t408.is_empty() {
+        tags.push("408".into());
+    }
+    if let Some((_, k)) = &done {
+        tags.push(format!("done:{k}"));
+    }
+    if hang {
+        tags.push("hang".into());
+    }
+
+    // ---- sentence 1: slow head ⇒ 408 at the deadline (never before), then closed
+    let sig_t = c.signal;
+    if c.t_req != 0 {
+        let lo = (c.accept + c.t_req).saturating_sub(SKEW);
+        let hi = c.accept + c.t_req;
+        let first_head = hs.first().map(|h| h.0);
+        let disturbed = s.eof.map_or(false, |e| e <= hi) || sig_t.map_or(false, |x| x <= hi) || s.blocks;
+        if first_head.map_or(true, |t| t > hi) && !disturbed && hi < c.horizon {
+            tags.push("slow-head".into());
+            match t408.first() {
+                None => set("slow-head-no-408", format!("no complete head by {hi} ms and no 408")),
+                Some(&t) if t < lo => set("slow-head-408-early", format!("408 at {t} < {lo}")),
+                Some(&t) if t > hi => set("slow-head-408-late", format!("408 at {t} > {hi}")),
+                Some(&t) => {
+                    if !closing_at(t) {
+                        set("slow-head-not-closed", format!("408 at {t} but no shutdown/close at that instant"));
+                    }
+                }
+            }
+        }
+        if let Some(t) = first_head {
+            if t < lo && !t408.is_empty() && sig_t.map_or(true, |x| x > t) {
+                set("408-despite-timely-head", format!("head complete at {t} < {lo}, 408 at {}", t408[0]));
+            }
+        }
+        if t408.len() > 1 {
+            set("slow-head-408-repeated", format!("{} 408 heads written: {:?}", t408.len(), t408));
+        }
+    } else if !t408.is_empty() {
+        set("408-with-timer-disabled", format!("408 at {}", t408[0]));
+    }
+
+    // ---- sentence 2: keep-alive
+    if let Ka::Ms(k) = c.ka {
+        // idle instants: a keep-alive response ended and every request delivered so far is answered
+        let mut ends = 0usize;
+        let mut last_head_ka = false;
+        let mut any_close = false;
+        for r in recs {
+            match r {
+                Rec::Head(_, _, close) => {
+                    last_head_ka = !*close;
+                    any_close |= *close;
+                }
+                Rec::End(te) => {
+                    ends += 1;
+                    let delivered = hs.iter().filter(|h| h.0 <= *te).count();
+                    // bytes of a further (incomplete) request already on the wire: not idle
+                    let partial = s.toks.iter().filter(|x| x.0 <= *te && x.1 == 'a').count()
+                        != s.toks.iter().filter(|x| x.0 <= *te && x.1 == 'b').count()
+                        || s.toks.iter().filter(|x| x.0 <= *te && x.1 == 'P').count()
+                            != s.toks.iter().filter(|x| x.0 <= *te && x.1 == 'd').count();
+                    if !last_head_ka || any_close || partial || delivered != ends || hs.iter().any(|h| h.1) {
+                        continue;
+                    }
+                    // what does the peer do next?
+                    let next_bytes = s.toks.iter().map(|x| x.0).find(|t| *t > *te);
+                    let other = [s.eof, sig_t].iter().flatten().any(|x| *x <= *te + k) || s.blocks;
+                    if other {
+                        continue;
+                    }
+                    let lo = (*te + k).saturating_sub(SKEW);
+                    let hi = *te + k;
+                    match next_bytes {
+                        Some(tn) if tn < lo => {
+                            // arrived in time: must not have been closed before, and is served if complete
+                            tags.push("ka-in-time".into());
+                            if first_close.map_or(false, |t| t < tn) {
+                                set("ka-closed-before-timely-request", format!("idle since {te}, request at {tn}, closed at {}", first_close.unwrap()));
+                            }
+                            let completes = s.toks.iter().any(|(t, ch)| *t == tn && matches!(ch, 'G' | 'C' | 'b' | 'P'));
+                            if completes && !recs.iter().any(|r| matches!(r, Rec::Call(t, _) if *t == tn)) {
+                                set("ka-timely-request-not-served", format!("idle since {te}, complete request at {tn} not dispatched"));
+                            }
+                        }
+                        Some(tn) if tn <= hi => {
+                            tags.push("ka-grey-zone".into());
+                        }
+                        _ => {
+                            if hi < c.horizon {
+                                tags.push("ka-expiry".into());
+                                match first_close {
+                                    None => set("ka-idle-not-closed", format!("idle since {te}, keep-alive {k} ms, never closed")),
+                                    Some(t) if t < lo => set("ka-closed-early", format!("idle since {te}, closed at {t} < {lo}")),
+                                    Some(t) if t > hi => set("ka-closed-late", format!("idle since {te}, closed at {t} > {hi}")),
+                                    _ => {}
+                                }
+                            }
+                        }
+                    }
+                }
+                _ => {}
+            }
+        }
+    }
+
+    // ---- sentence 3: with a disconnect timeout, shutdown never outlasts it
+    if c.d_disc != 0 {
+        if let Some(ts) = first_shut {
+            if ts + c.d_disc < c.horizon {
+                tags.push("shutdown-timed".into());
+                match &done {
+                    Some((td, _)) if *td <= ts + c.d_disc => {}
+                    Some((td, _)) => set("shutdown-outlasts-timeout", format!("socket shutdown began at {ts}, completed at {td} > {} ", ts + c.d_disc)),
+                    None => set("shutdown-outlasts-timeout", format!("socket shutdown began at {ts}, disconnect timeout {} ms, connection still alive at {} ms", c.d_disc, c.horizon)),
+                }
+            }
+        }
+        // the final response announced `connection: close` (or was 408/400): linger (≤ D) + shutdown (≤ D)
+        let last_call = recs.iter().rev().find_map(|r| if let Rec::Call(t, _) = r { Some(*t) } else { None });
+        let mut last_close_end: Option<u64> = None;
+        let mut cur_close = false;
+        for r in recs {
+            match r {
+                Rec::Head(_, _, cl) => {
+                    cur_close = *cl;
+                    last_close_end = None;
+                }
+                Rec::End(t) if cur_close => last_close_end = Some(*t),
+                _ => {}
+            }
+        }
+        if let Some(tc) = last_close_end {
+            let bound = tc + 2 * c.d_disc + SKEW;
+            if last_call.map_or(true, |t| t <= tc) && bound < c.horizon && !s.blocks {
+                tags.push("close-timed".into());
+                match &done {
+                    Some((td, _)) if *td <= bound => {}
+                    _ => set("close-outlasts-timeout", format!("response with connection: close ended at {tc}; disconnect timeout {} ms; not closed by {bound}", c.d_disc)),
+                }
+            }
+        }
+    }
+
+    // ---- sentence 3, "whatever the peer does": a POST whose body is still unread when its (last)
+    // response is produced makes the server close; known from the script alone, so it also covers
+    // a peer that stops reading (write / flush pending) and never sees the response
+    if c.d_disc != 0 {
+        let calls: Vec<(u64, char)> = recs.iter().filter_map(|r| if let Rec::Call(t, p) = r { Some((*t, *p)) } else { None }).collect();
+        if let Some((tc, 'p')) = calls.last().copied() {
+            let (delay, body) = if c.handlers.is_empty() {
+                (0, c06_rt::BodyKind::Empty)
+            } else {
+                c.handlers[(calls.len() - 1).min(c.handlers.len() - 1)]
+            };
+            let t_resp = tc + delay + if let c06_rt::BodyKind::Stream(g) = body { g } else { 0 };
+            let p_count = s.toks.iter().filter(|x| x.1 == 'P' && x.0 <= t_resp).count();
+            let d_before = s.toks.iter().filter(|x| x.1 == 'd' && x.0 <= t_resp).count();
+            // body bytes arriving in the very poll that produces the response are read first
+            let tie = s.toks.iter().any(|x| x.1 == 'd' && x.0 == t_resp);
+            let writes_ok_for_stream = !matches!(body, c06_rt::BodyKind::Stream(_)) || !s.blocks;
+            let bound = t_resp + 2 * c.d_disc + SKEW;
+            if d_before < p_count && !tie && writes_ok_for_stream && bound < c.horizon && sig_t.is_none() {
+                tags.push("linger-timed".into());
+                match &done {
+                    Some((td, _)) if *td <= bound => {}
+                    _ => set("linger-outlasts-timeout", format!("response to a POST with unread body produced at {t_resp}; disconnect timeout {} ms; not closed by {bound}", c.d_disc)),
+                }
+            }
+        }
+    }
+
+    // ---- sentence 4: graceful shutdown
+    if let Some(sg) = sig_t {
+        let sg = sg.max(c.accept);
+        tags.push("signal".into());
+        let calls: Vec<u64> = recs.iter().filter_map(|r| if let Rec::Call(t, _) = r { Some(*t) } else { None }).collect();
+        if let Some(t) = calls.iter().find(|t| **t >= sg) {
+            set("graceful-started-after-signal", format!("signal at {sg}, handler called at {t}"));
+        }
+        let undisturbed = s.eof.is_none() && !s.blocks && !hs.iter().any(|h| h.1);
+        // a response that announced `connection: close` ended before the signal: the connection
+        // was already closing (lingering / shutting down) for reasons that are not the signal's
+        let closing_before = {
+            let mut cl = false;
+            let mut res = false;
+            for r in recs {
+                match r {
+                    Rec::Head(_, _, c2) => cl = *c2,
+                    Rec::End(t) if cl && *t < sg => res = true,
+                    _ => {}
+                }
+            }
+            res
+        };
+        if undisturbed && !closing_before && !calls.is_empty() && first_close.map_or(true, |t| t >= sg) {
+            // every started request is answered completely
+            let heads: Vec<(u64, u16, bool)> =
+                recs.iter().filter_map(|r| if let Rec::Head(t, st, cl) = r { Some((*t, *st, *cl)) } else { None }).collect();
+            let ends = recs.iter().filter(|r| matches!(r, Rec::End(_))).count();
+            let ok_heads = heads.iter().filter(|h| h.1 == 200).count();
+            if !hang || true {
+                if ok_heads < calls.len() || ends < calls.len() {
+                    // only a violation if the handler would have finished before the horizon
+                    set("graceful-inflight-not-answered", format!("{} requests started, {} answered, {} completed", calls.len(), ok_heads, ends));
+                }
+            }
+            for h in &heads {
+                if h.0 >= sg && !h.2 {
+                    set("graceful-response-without-close", format!("signal at {sg}, head at {} without connection: close", h.0));
+                }
+            }
+            if calls.iter().any(|t| *t < sg) {
+                tags.push("graceful-inflight".into());
+            }
+        }
+        // the connection is closed once nothing is in flight
+        if undisturbed && sg < c.horizon {
+            let last_end = recs.iter().rev().find_map(|r| if let Rec::End(t) = r { Some(*t) } else { None });
+            let idle_from = match (calls.last(), last_end) {
+                (Some(_), Some(e)) => Some(e.max(sg)),
+                (Some(_), None) => None,
+                (None, _) => Some(sg),
+            };
+            if let Some(t0) = idle_from {
+                // a request body still unread when its response ended: the code lingers (≤ D) first
+                let unread_body = s.toks.iter().filter(|x| x.0 <= t0 && x.1 == 'P').count()
+                    != s.toks.iter().filter(|x| x.0 <= t0 && x.1 == 'd').count();
+                if !closing_before && !unread_body && t408.is_empty() && first_close.map_or(true, |t| t > t0) && first_close.map_or(true, |t| t >= sg) {
+                    set("graceful-not-closed", format!("signal at {sg}, nothing in flight since {t0}, first close {:?}", first_close));
+                }
+            }
+        }
+    }
+
+    let nontrivial = !t408.is_empty()
+        || recs.iter().any(|r| matches!(r, Rec::Call(..)))
+        || matches!(&done, Some((_, k)) if k != "ok")
+        || sig_t.is_some();
+    (fail, tags, nontrivial)
+}
+
+// ---------------------------------------------------------------------------------------------
+// generator
+
+fn around(rng: &mut Rng, d: u64) -> u64 {
+    let offs: [i64; 9] = [-501, -500, -499, -250, -1, 0, 1, 250, 501];
+    let o = *rng.pick(&offs);
+    (d as i64 + o).max(0) as u64
+}
+
+fn cfg_words(t: u64, k: &str, d: u64) -> String {
+    format!("T={t} K={k} D={d}")
+}
+
+fn pick_ka(rng: &mut Rng) -> (&'static str, u64) {
+    *rng.pick(&[("1000", 1000), ("1300", 1300), ("2000", 2000), ("700", 700)])
+}
+
+fn gen(ctx: &Ctx) -> Vec<String> {
+    let mut rng = Rng::new(ctx.seed);
+    let mut out: Vec<String> = Vec::new();
+    let ts = [700u64, 1000, 1250, 2000];
+    let accepts = [0u64, 0, 130, 300, 499, 500, 730];
+    let ds = [0u64, 300, 700, 1000];
+
+    // family 1: slow / split first head around the request deadline
+    for _ in 0..ctx.budget(160) {
+        let t = *rng.pick(&ts);
+        let a = *rng.pick(&accepts);
+        let d = *rng.pick(&ds);
+        let (ks, _) = if rng.chance(1, 4) { ("off", 0) } else { pick_ka(&mut rng) };
+        let dl = 500 * (a / 500) + t;
+        let mut w = vec![cfg_words(t, ks, d), format!("A={a}")];
+        if rng.chance(1, 2) {
+            w.push("sd=p".into());
+        }
+        match rng.below(5) {
+            0 => {}
+            1 => w.push(format!("{}:a", a + rng.below(200) as u64)),
+            2 => {
+                let t1 = a + rng.below(300) as u64;
+                w.push(format!("{t1}:a"));
+                w.push(format!("{}:b", around(&mut rng, dl).max(t1)));
+            }
+            3 => w.push(format!("{}:G", around(&mut rng, dl).max(a))),
+            _ => {
+                let t1 = around(&mut rng, dl).max(a);
+                w.push(format!("{t1}:a"));
+                w.push(format!("{}:b", t1 + rng.below(3) as u64 * 250));
+            }
+        }
+        for _ in 0..rng.below(3) {
+            w.push(format!("{}:w", dl + rng.below(3000) as u64));
+        }
+        if rng.chance(1, 4) {
+            w.push(format!("{}:sr", dl + d + rng.below(3) as u64 * 500));
+        }
+        out.push(w.join(" "));
+    }
+
+    // family 2: keep-alive — next request around the keep-alive deadline
+    for _ in 0..ctx.budget(160) {
+        let (ks, k) = pick_ka(&mut rng);
+        let d = *rng.pick(&ds);
+        let a = *rng.pick(&accepts);
+        let t0 = a + rng.below(700) as u64;
+        let delay = *rng.pick(&[0u64, 0, 120, 400]);
+        let body = *rng.pick(&["e", "s", "t150"]);
+        let mut w = vec![cfg_words(*rng.pick(&[0u64, 1000, 5000]), ks, d), format!("A={a}"), format!("h={delay}:{body}")];
+        if rng.chance(1, 3) {
+            w.push("sd=p".into());
+        }
+        w.push(format!("{t0}:G"));
+        let te = t0 + delay + if body == "t150" { 150 } else { 0 };
+        let dl = 500 * (te / 500) + k;
+        match rng.below(4) {
+            0 => {}
+            1 => w.push(format!("{}:G", around(&mut rng, dl).max(te + 1))),
+            2 => {
+                let t1 = around(&mut rng, dl).max(te + 1);
+                w.push(format!("{t1}:a"));
+                if rng.chance(2, 3) {
+                    w.push(format!("{}:b", t1 + *rng.pick(&[1u64, 300, 1500, 4000])));
+                }
+            }
+            _ => {
+                let t1 = around(&mut rng, dl).max(te + 1);
+                w.push(format!("{t1}:{}", rng.pick(&["C", "GG", "GC", "Pd"])));
+            }
+        }
+        for _ in 0..rng.below(3) {
+            w.push(format!("{}:w", dl + rng.below(2500) as u64));
+        }
+        out.push(w.join(" "));
+    }
+
+    // family 3: every way into SHUTDOWN × transport that does not finish × later wake-ups
+    for _ in 0..ctx.budget(200) {
+        let d = *rng.pick(&[300u64, 700, 1000, 1000, 0]);
+        let (ks, k) = if rng.chance(1, 4) { ("off", 0) } else { pick_ka(&mut rng) };
+        let t = *rng.pick(&[0u64, 1000, 1250]);
+        let a = *rng.pick(&accepts);
+        let hc = rng.chance(3, 4);
+        let mut w = vec![cfg_words(t, ks, d), format!("A={a}"), "sd=p".into()];
+        if !hc {
+            w.push("hc=0".into());
+        }
+        let delay = *rng.pick(&[0u64, 0, 200]);
+        w.push(format!("h={delay}:{}", rng.pick(&["e", "s", "t100"])));
+        let t0 = a + rng.below(400) as u64;
+        let start;
+        match rng.below(7) {
+            0 => {
+                w.push(format!("{t0}:C"));
+                start = t0 + delay;
+            }
+            1 => {
+                w.push(format!("{t0}:G"));
+                start = t0 + delay + k;
+            }
+            2 => {
+                start = a + t;
+            }
+            3 => {
+                w.push(format!("{t0}:G"));
+                let te = t0 + delay + 100 + rng.below(600) as u64;
+                w.push(format!("{te}:E"));
+                start = te;
+            }
+            4 => {
+                w.push(format!("{t0}:X"));
+                start = t0;
+            }
+            5 => {
+                w.push(format!("{t0}:P"));
+                if rng.chance(1, 2) {
+                    w.push(format!("{}:d", t0 + delay + rng.below(900) as u64));
+                }
+                if rng.chance(1, 3) {
+                    w.push(format!("{}:E", t0 + delay + rng.below(1200) as u64));
+                }
+                start = t0 + delay + d;
+            }
+            _ => {
+                w.push(format!("{t0}:{}", rng.pick(&["GC", "GG", "PdG", "Pd", "GP"])));
+                start = t0 + delay;
+            }
+        }
+        for _ in 0..rng.below(4) {
+            w.push(format!("{}:w", around(&mut rng, start + d) + rng.below(2) as u64 * 700));
+        }
+        match rng.below(4) {
+            0 => w.push(format!("{}:sr", around(&mut rng, start + d))),
+            1 => {
+                let tb = start.saturating_sub(rng.below(300) as u64);
+                w.push(format!("{tb}:fb"));
+                if rng.chance(1, 2) {
+                    w.push(format!("{}:fu", around(&mut rng, start + d)));
+                }
+            }
+            _ => {}
+        }
+        out.push(w.join(" "));
+    }
+
+    // family 4: graceful shutdown signal relative to arrival / handler completion / body streaming
+    for _ in 0..ctx.budget(200) {
+        let (ks, _) = if rng.chance(1, 5) { ("off", 0) } else { pick_ka(&mut rng) };
+        let d = *rng.pick(&ds);
+        let a = *rng.pick(&[0u64, 0, 130, 500]);
+        let t0 = a + rng.below(600) as u64;
+        let delay = *rng.pick(&[0u64, 100, 300, 600]);
+        let gap = *rng.pick(&[100u64, 250]);
+        let body = match rng.below(3) {
+            0 => "e".to_owned(),
+            1 => "s".to_owned(),
+            _ => format!("t{gap}"),
+        };
+        let marks = [t0, t0 + delay, t0 + delay + gap, a];
+        let sg = {
+            let m = *rng.pick(&marks);
+            let offs: [i64; 5] = [-1, 0, 1, -100, 100];
+            (m as i64 + *rng.pick(&offs)).max(0) as u64
+        };
+        let mut w = vec![cfg_words(*rng.pick(&[0u64, 1000, 5000]), ks, d), format!("A={a}"), format!("S={sg}"), format!("h={delay}:{body}")];
+        if rng.chance(1, 4) {
+            w.push("sd=p".into());
+        }
+        w.push(format!("{t0}:{}", rng.pick(&["G", "G", "GG", "GGG", "C", "Pd", "a"])));
+        if rng.chance(1, 2) {
+            let m = *rng.pick(&marks);
+            w.push(format!("{}:{}", (m as i64 + *rng.pick(&[-1i64, 0, 1, 50])).max(a as i64), rng.pick(&["G", "GG", "b", "G"])));
+        }
+        for _ in 0..rng.below(2) {
+            w.push(format!("{}:w", sg + rng.below(1500) as u64));
+        }
+        let line = w.join(" ");
+        out.push(line);
+    }
+
+    // family 6: lingering (early response to a POST whose body is unread) with a peer that stops reading
+    for _ in 0..ctx.budget(80) {
+        let d = *rng.pick(&[300u64, 700, 1000]);
+        let (ks, _) = if rng.chance(1, 4) { ("off", 0) } else { pick_ka(&mut rng) };
+        let a = *rng.pick(&accepts);
+        let t0 = a + rng.below(400) as u64;
+        let delay = *rng.pick(&[0u64, 0, 200]);
+        let mut w = vec![cfg_words(*rng.pick(&[0u64, 1000]), ks, d), format!("A={a}"), format!("h={delay}:{}", rng.pick(&["e", "s"]))];
+        if rng.chance(2, 3) {
+            w.push("sd=p".into());
+        }
+        let blk = *rng.pick(&["wb", "fb"]);
+        let ublk = if blk == "wb" { "wu" } else { "fu" };
+        let tb = if rng.chance(1, 2) { t0 } else { t0 + delay + rng.below(200) as u64 };
+        if tb == t0 {
+            w.push(format!("{tb}:{blk}"));
+            w.push(format!("{t0}:P"));
+        } else {
+            w.push(format!("{t0}:P"));
+            w.push(format!("{tb}:{blk}"));
+        }
+        if rng.chance(1, 3) {
+            w.push(format!("{}:{ublk}", around(&mut rng, t0 + delay + d)));
+        }
+        if rng.chance(1, 3) {
+            w.push(format!("{}:d", t0 + delay + 1 + rng.below(1500) as u64));
+        }
+        if rng.chance(1, 4) {
+            w.push(format!("{}:E", t0 + delay + rng.below(1500) as u64));
+        }
+        for _ in 0..rng.below(3) {
+            w.push(format!("{}:w", around(&mut rng, t0 + delay + d) + rng.below(2) as u64 * d));
+        }
+        out.push(w.join(" "));
+    }
+
+    // family 5: random mix
+    for _ in 0..ctx.budget(280) {
+        let t = *rng.pick(&[0u64, 700, 1000, 1250]);
+        let (ks, _) = match rng.below(6) {
+            0 => ("off", 0),
+            1 => ("os", 0),
+            _ => pick_ka(&mut rng),
+        };
+        let d = *rng.pick(&ds);
+        let a = *rng.pick(&accepts);
+        let mut w = vec![cfg_words(t, ks, d), format!("A={a}")];
+        if rng.chance(1, 3) {
+            w.push("sd=p".into());
+        }
+        if rng.chance(1, 5) {
+            w.push("hc=0".into());
+        }
+        if rng.chance(1, 4) {
+            w.push(format!("S={}", a + rng.below(3000) as u64));
+        }
+        let nh = rng.range(1, 3);
+        let hsv: Vec<String> = (0..nh)
+            .map(|_| format!("{}:{}", rng.pick(&[0u64, 0, 150, 500]), rng.pick(&["e", "s", "t100", "t600"])))
+            .collect();
+        w.push(format!("h={}", hsv.join(",")));
+        let mut tcur = a;
+        let n = rng.range(0, 5);
+        let mut pend_a = false;
+        let mut pend_p = false;
+        for _ in 0..n {
+            tcur += *rng.pick(&[0u64, 1, 200, 499, 500, 501, 800, 1000, 1300, 2000]);
+            let tok = if pend_a {
+                pend_a = false;
+                "b".to_owned()
+            } else if pend_p {
+                pend_p = false;
+                "d".to_owned()
+            } else {
+                let tk = *rng.pick(&["G", "G", "C", "a", "ab", "P", "Pd", "GG", "X", "GC"]);
+                pend_a = tk == "a";
+                pend_p = tk == "P";
+                tk.to_owned()
+            };
+            w.push(format!("{tcur}:{tok}"));
+        }
+        if rng.chance(1, 4) {
+            w.push(format!("{}:E", tcur + rng.below(1500) as u64));
+        }
+        for _ in 0..rng.below(3) {
+            w.push(format!("{}:w", a + rng.below(6000) as u64));
+        }
+        if rng.chance(1, 6) {
+            let tb = a + rng.below(3000) as u64;
+            w.push(format!("{tb}:{}", rng.pick(&["fb", "wb"])));
+            if rng.chance(2, 3) {
+                w.push(format!("{}:{}", tb + rng.below(2000) as u64, rng.pick(&["fu", "wu"])));
+            }
+        }
+        if rng.chance(1, 5) {
+            w.push(format!("{}:sr", a + rng.below(6000) as u64));
+        }
+        out.push(w.join(" "));
+    }
+    out
+}
+
+fn run(line: &str) -> CaseResult {
+    let case = match parse_case(line) {
+        Ok(c) => c,
+        Err(_) => {
+            let mut r = CaseResult::ok("bad-case".to_owned());
+            r.nontrivial = false;
+            return r.tag("bad-case");
+        }
+    };
+    let toks: Vec<char> = script_of(&case).toks.iter().map(|x| x.1).collect();
+    if !well_formed(&toks) {
+        let mut r = CaseResult::ok("unsupported".to_owned());
+        r.nontrivial = false;
+        return r.tag("unsupported");
+    }
+    let recs = run_case(&case);
+    let (fail, tags, nontrivial) = oracle(&case, &recs);
+    CaseResult { output: show(&recs), fail, nontrivial, tags }
+}
 
 pub fn prop() -> Prop {
-    Prop {
-        rule: "unimplemented",
-        parallel: false,
-        gen: Box::new(|_| Vec::new()),
-        run: Box::new(|_| CaseResult::ok("unimplemented".to_owned())),
-    }
+    Prop { rule: RULE, parallel: true, gen: Box::new(gen), run: Box::new(run) }
 }
